@@ -109,6 +109,7 @@ type Scenario struct {
 	Argv    []string      `json:"argv,omitempty"`
 	Stdin   string        `json:"stdin,omitempty"`
 	OSFault []simos.Fault `json:"os_faults,omitempty"`
+	Then    []FileSpec    `json:"then_files,omitempty"` // C18 histories: the files as edited before a second, fault-free run
 
 	// C02 stream scenarios
 	StdinChunks []int  `json:"stdin_chunks,omitempty"`
